@@ -85,7 +85,7 @@ def run(tier):
     progs = c01.derive(ctx, "CGram fuel<=2", 2)
     progs = [e["toks"] for e in progs]
     sample = rnd.sample(progs, 700 if tier == "quick" else 8000)
-    cases, names, sk = _cases_for(sample, rnd, ["random", "markers", "sameline"])
+    cases, names, sk = _cases_for(sample, rnd, ["random", "markers", "sameline", "flagged"])
     check_cases(ctx, cases, names, "grammar machine x layouts")
     sim = c01.derive(ctx, "CGram simulated", 12, simulate=300 if tier == "quick" else 4000, depth=400, seed=ctx.seed + 11)
     cases, names, sk2 = _cases_for([e["toks"] for e in sim], rnd, ["markers"])
